@@ -191,7 +191,7 @@ impl<'a> ProgGen<'a> {
                             Rule {
                                 trigger,
                                 t: if self.g.chance(0.15) { TAG_IT } else { self.g.below(self.cfg.ntypes as usize) as u8 },
-                                kind: if self.g.chance(0.5) { ExtractorKind::ValueOf } else { ExtractorKind::IdLens },
+                                kind: match self.g.below(8) { 0..=3 => ExtractorKind::ValueOf, 4..=6 => ExtractorKind::IdLens, _ => ExtractorKind::AliasT0 },
                             }
                         })
                         .collect::<Vec<Rule>>()
@@ -215,12 +215,18 @@ impl<'a> ProgGen<'a> {
         };
         let pre_ops = {
             let n = self.g.below(3);
-            (0..n)
+            let mut v: Vec<Op> = (0..n)
                 .map(|_| {
                     self.next_val += 1;
                     Op::Insert(self.g.below(self.cfg.ntypes as usize) as u8, self.next_val)
                 })
-                .collect()
+                .collect();
+            // a pass counter left in the caller's state (an earlier run, a caller that prepared it):
+            // a loop initialised in that scope starts from 0 all the same
+            if self.g.chance(0.15) {
+                v.push(Op::Insert(TAG_IT, 1 + self.g.below(6) as u32));
+            }
+            v
         };
         let resume = self.g.chance(0.3);
         Program { root, log_rules, pre_ops, resume }
